@@ -104,9 +104,25 @@ D1s == {TList(TInt), TList(TStr), TList(TAny), TList(TRec("R1")), TList(TEnum("E
         TUnion(<<TInt, TStr, TNone>>), TUnion(<<TAny, TInt>>)}
 Y2 == IF Tier = "quick" THEN {TInt, TNone, TAny, TStr} ELSE {TInt, TNone, TAny, TStr, TBool, TAnyList, TRec("R1")}
 
-D2 == Unary(D1) \cup Binary(D1s, Y2) \cup Binary(Y2, D1s)
+\* unions whose members share a constructor (in both tiers; the quick argument sets would not reach them)
+Merge2 == {TUnion(<<TList(TInt), TList(TStr)>>), TUnion(<<TList(TInt), TNone, TList(TBool)>>),
+           TUnion(<<TDict(TStr, TInt), TDict(TInt, TStr)>>), TUnion(<<TDict(TStr, TInt), TAnyList, TDict(TStr, TStr)>>),
+           TUnion(<<TSet(TInt), TSet(TStr)>>), TUnion(<<TTupleOf(TInt), TTupleOf(TStr)>>),
+           TUnion(<<TTuple(<<TInt>>), TTuple(<<TStr>>)>>), TUnion(<<TTuple(<<TInt, TStr>>), TTuple(<<TStr, TInt>>)>>),
+           TUnion(<<TUnion(<<TList(TInt), TNone>>), TList(TStr)>>),
+           TList(TUnion(<<TList(TInt), TList(TStr)>>)), TUnion(<<TList(TList(TInt)), TList(TList(TStr))>>),
+           TUnion(<<TRec("R1"), TRec("R2")>>), TUnion(<<TEnum("E1"), TEnum("E2")>>)}
+
+\* quick: list[..] and (..,) over every depth-1 type, set[..] and tuple[.., ...] over the D1s selection
+Unary2 == IF Tier = "quick"
+          THEN {TList(x) : x \in D1} \cup {TTuple(<<x>>) : x \in D1}
+               \cup {TSet(x) : x \in D1s} \cup {TTupleOf(x) : x \in D1s}
+          ELSE Unary(D1)
+D2 == Unary2 \cup Binary(D1s, Y2) \cup Binary(Y2, D1s)
       \cup Ternary(D1s, {TInt}, {TNone}) \cup Ternary({TInt}, D1s, {TNone}) \cup Ternary({TNone}, {TInt}, D1s)
       \cup (IF Tier = "quick" THEN {} ELSE Binary(D1s, D1s))
+      \cup Merge2
+
 
 Base == SetToSeq(D0 \cup D1 \cup D2)
 NB0  == Len(Base)
@@ -144,8 +160,13 @@ NT == Len(TypeSeq)
 \* family "same_site": the type mentions a declaration made by a call site that also made the
 \* declaration of a value inside v (RF1/RF2, EF1/EF2) -- reported separately, see known_findings.
 Sib(n) == CASE n = "RF1" -> "RF2" [] n = "RF2" -> "RF1" [] n = "EF1" -> "EF2" [] n = "EF2" -> "EF1" [] OTHER -> ""
-Family(ty, v) == IF \E n \in {"RF1", "RF2", "EF1", "EF2"} : TyMentions(ty, {n}) /\ ValMentions(v, {Sib(n)})
-                 THEN "same_site" ELSE "plain"
+\* family "union_merge": the pair is one where reading the type as typing/ty.rs normalises it
+\* (TypeMatch!Widen: list[A] | list[B] as list[A | B], dicts likewise) changes the answer.
+WidenSeq == [i \in 1..NT |-> Widen(TypeSeq[i])]
+Family(i, v) == LET ty == TypeSeq[i] IN
+                 IF \E n \in {"RF1", "RF2", "EF1", "EF2"} : TyMentions(ty, {n}) /\ ValMentions(v, {Sib(n)})
+                 THEN "same_site"
+                 ELSE IF Matches(WidenSeq[i], v) # Matches(ty, v) THEN "union_merge" ELSE "plain"
 
 \* ------------------------------------------------------------------ the state machine
 VARIABLES ti, vi
@@ -154,7 +175,8 @@ Init == ti \in 1..NT /\ vi = 0
 Next == vi < NV /\ vi' = vi + 1 /\ ti' = ti
 Spec == Init /\ [][Next]_vars
 
-PrintPair == PrintT(<<"P", ti, vi', Matches(TypeSeq[ti], Vals[vi']), Family(TypeSeq[ti], Vals[vi'])>>)
+PrintPair == PrintT(<<"P", ti, vi', Matches(TypeSeq[ti], Vals[vi']), Family(ti, Vals[vi']),
+                      Deep(TypeSeq[ti], Vals[vi'])>>)
 
 \* laws of the meaning (M), checked at every pair reached
 Lemmas ==
